@@ -377,6 +377,9 @@ func genEvalCase(t *rapid.T, scheme string, only ...string) EvalCase {
 		c.Hist = append(c.Hist, HistOp{Op: hn, Kind: hk, Arg: fixArgs(hn, genArgs(t, fmt.Sprintf("h%d", i), n)), Seed: rapid.Uint64().Draw(t, fmt.Sprintf("h%d_seed", i))})
 	}
 	c.Poison = rapid.IntRange(0, 2).Draw(t, "poison")
+	if baseScheme(scheme) != "rlwe" && rapid.IntRange(0, 2).Draw(t, "outHistOn") == 2 {
+		c.OutHist = genOutHist(t)
+	}
 	return c
 }
 
@@ -392,3 +395,53 @@ var propBFV = h.NewProp("TestPropBFV", h.Budget{Quick: 2000, Thorough: 60000},
 	func(t *rapid.T) EvalCase { return genEvalCase(t, "bfv") }, runEval)
 
 func TestPropBFV(t *testing.T) { propBFV.Check(t) }
+
+// genOutHist draws the earlier life of the output object: presets that grow it to degree 2 and shrink it in place, or
+// a free sequence of 1-4 in-place steps.
+func genOutHist(t *rapid.T) []string {
+	switch rapid.IntRange(0, 4).Draw(t, "outHistPreset") {
+	case 0:
+		return []string{"Mul2", "Relin"}
+	case 1:
+		return []string{"Mul2", "MulRelinInto"}
+	case 2:
+		return []string{"AddDeg2", "Relin", "DropLevel"}
+	}
+	n := rapid.IntRange(1, 4).Draw(t, "outHistLen")
+	steps := make([]string, n)
+	for i := range steps {
+		steps[i] = outSteps[rapid.IntRange(0, len(outSteps)-1).Draw(t, fmt.Sprintf("outHist%d", i))]
+	}
+	return steps
+}
+
+// TestPropOutputHistory concentrates on the clause "the result does not depend on what the output object was used for
+// before": the receiver is grown and shrunk in place (degree and level) by real evaluator calls and then receives an
+// operation that grows it again and accumulates or overwrites; the reference is the same call on a fresh object holding
+// the same value (accumulating methods) or on a freshly allocated receiver.
+var outHistTargets = []string{"MulThenAdd", "MulRelinThenAdd", "MulThenAdd", "Mul", "MulRelin", "Add", "Sub"}
+
+func genOutHistCase(t *rapid.T) EvalCase {
+	scheme := []string{"bgv", "ckks", "bfv"}[rapid.IntRange(0, 2).Draw(t, "schemeSel")]
+	targets := outHistTargets
+	if scheme == "bfv" {
+		targets = []string{"Mul", "MulRelin"}
+	}
+	c := genEvalCase(t, scheme, targets...)
+	if rapid.IntRange(0, 3).Draw(t, "bForceCt") != 0 {
+		c.B.Kind = "ct"
+		if c.B.Deg == 0 {
+			c.B.Deg = 1
+		}
+	}
+	if c.Alias != 3 {
+		c.Alias = 0
+	}
+	c.Out.New = false
+	c.OutHist = genOutHist(t)
+	return c
+}
+
+var propOutHist = h.NewProp("TestPropOutputHistory", h.Budget{Quick: 2500, Thorough: 60000}, genOutHistCase, runEval)
+
+func TestPropOutputHistory(t *testing.T) { propOutHist.Check(t) }
